@@ -118,6 +118,16 @@ func c19Statements(r *rt.Rand, p string, n int, mutable bool) []string {
 		// concatenations whose left operand is a slice handed out by the storage
 		"select key + '_%[1]s', value + '/' + key where key ^= '%[1]s'",
 		"select key where key ^= '%[1]s' & value + '%[1]s' != 'g1%[1]s'",
+		// groups keyed by floats that need many digits (the key text is made per statement)
+		"select float(value) / 3.0 as f, count(1) as c, min(key) where key ^= '%[1]s' & value ~= '^[0-9]+(\\.5)?$' group by f",
+		"select float(value) * 1000.5 as f, strlen(value) as l, count(1), group_concat(key, ',') where key ^= '%[1]s' & value ~= '^[0-9]+(\\.5)?$' group by f, l",
+		"select float(value) + 123456.789 as f, sum(float(value)) where key ^= '%[1]s' & value ~= '^[0-9]+(\\.5)?$' group by f order by f desc",
+		// reads of a single key, spelled in every way that pins one key
+		"select * where key = '%[1]s001'",
+		"select key, value where '%[1]s002' = key & value != 'zz'",
+		"select * where key in ('%[1]s004')",
+		"select * where key >= '%[1]s006' & key <= '%[1]s006'",
+		"select key, upper(value) where key = '%[1]s007' | key = '%[1]s007'",
 		// short form (no select clause)
 		"where key ^= '%[1]s' limit 3",
 		"where key ^= '%[1]s' & value ~= '^g[0-3]$'",
